@@ -47,7 +47,11 @@
 #define HWLOC_OBJ_TYPE_NONE ((hwloc_obj_type_t) -1)   /* as in include/private/misc.h */
 #endif
 extern size_t __sanitizer_get_current_allocated_bytes(void);   /* ASan runtime */
+#ifdef VERIF_MSAN   /* MemorySanitizer build (clang): no LeakSanitizer in that runtime; leaks are the ASan build's business */
+static int __lsan_do_recoverable_leak_check(void) { return 0; }
+#else
 extern int __lsan_do_recoverable_leak_check(void);
+#endif
 
 /* ------------------------------------------------------------------ small helpers */
 struct buf { unsigned char *p; size_t n, cap; };
